@@ -51,6 +51,10 @@ checks = {
    technique="bounded-exhaustive enumeration of geometry lists through the real writers, decoded by independent readers (go3mf, yofu/dxf, encoding/xml)",
    text="All ordered lists of length 0-3 (4 thorough) with repetition over an 8-triangle / 8-segment menu (shared vertices, exact duplicates, reversed winding, a sliver below the 1e-6 de-duplication grid, 1e-5, 12345.678912, values rounding differently at 2/4 decimals, drawings that do not contain the origin), through To3MF, ToDXF/SaveDXF and ToSVG/SaveSVG. 3MF: one millimetre mesh object, triangle i = input i with winding, vertices = float32 at four decimals, identical corners share a vertex. DXF: one LINE per segment on layer Lines, six-decimal coordinates, in order. SVG: one <line> per segment shifted to the minimum corner with y flipped, canvas = extent.",
    note="3MF vertex tolerance 1.5e-4 (format decimals + de-duplication grid)"),
+ "C17": dict(engine="E", design="3/C17",
+   technique="bounded-exhaustive enumeration of builder inputs against independent geometric constructions; the library's random source is an enumerated environment answer",
+   text="Every non-collinear corner (prev, v, next) on the 5x5 integer grid (13k geometries, both turning directions, short edges) x radius {1/8,1/2,1,3} x facets {1,2,5,6}, as the middle vertex of an open polygon and as the first vertex of a closed one, smoothed and chamfered: left unchanged iff the tangent distance r/tan(theta/2) exceeds an adjacent edge, else facets+1 points from tangent point to tangent point on the circle centred on the bisector at r/sin(theta/2) in equal steps. Arcs over all 600 grid chords x |r| in {d/2(1+2^-20), d, 4d} x both signs x facets {2,3,8}. All relative/polar chains of length 2-4 over a 6-entry menu; N-gons 3..32. Bezier: every control polygon of degree 1-3 (every 6th of degree 4; all thorough) on the 3x3 grid, open and closed: every vertex is the de Casteljau point at a multiple of 1/512 in increasing order, exact end points, degree-1 exact; the random perturbation is answered from {1/4; 0, 3/4, 1-2^-53} with single deviations at the first 12 calls and pairs among the first 4; 648 handle specifications.",
+   note="corners with the tangent distance within 1e-9 of an edge length are skipped; handle-specified end points compared to 1e-12"),
 }
 props = [json.loads(l) for l in open(os.path.join(V, "properties.jsonl"))]
 pending_reason = "check not built yet in this session (work in progress, see DESIGN.md section 3 for the planned bounded-exhaustive check)"
